@@ -95,7 +95,7 @@ func runDeviatingQuery(c *Ctx, idx int) error {
 		sr := r.Fork()
 		ga, ea, g2e, _ := newDuplexPair(sr, 0)
 		gConn, eConn := p2p.NewConn(ga), p2p.NewConn(ea)
-		grand := &blockLog{r: sr.Fork()}
+		grand := &blockLog{r: sr.Fork(), skipKey: true}
 		gOT := &recOT{OT: kind.mk(sr.Fork())}
 		eOT := kind.mk(sr.Fork())
 		var wg sync.WaitGroup
